@@ -108,6 +108,28 @@ class Open(object):
                 data=self.bgp_id)
         # Optional Parameters
         if self.opt_para_len:
+            try:
+                self.parse_opt_paras(message)
+            except excp.OpenMessageError:
+                raise
+            except Exception:
+                # a recognized optional parameter that is malformed
+                # (RFC 4271 6.2: Error Subcode 0, Unspecific)
+                raise excp.OpenMessageError(sub_error=0, data=message[10:])
+
+        return {
+            'version': self.version,
+            'asn': self.asn,
+            'hold_time': self.hold_time,
+            'bgp_id': self.bgp_id,
+            'capabilities': self.capa_dict
+        }
+
+    def parse_opt_paras(self, message):
+
+        """Parses the Optional Parameters of a BGP Open message"""
+
+        if self.opt_para_len:
 
             self.opt_paras = message[10:]
 
@@ -218,14 +240,6 @@ class Open(object):
 
                 # Go to next Optional Parameter
                 self.opt_paras = self.opt_paras[opt_para_length + 2:]
-
-        return {
-            'version': self.version,
-            'asn': self.asn,
-            'hold_time': self.hold_time,
-            'bgp_id': self.bgp_id,
-            'capabilities': self.capa_dict
-        }
 
     @staticmethod
     def construct_header(msg):
